@@ -518,3 +518,60 @@ func TestC13Child(t *testing.T) {
 		t.Fatal(err)
 	}
 }
+
+// TestC13RaceCold: the very first use of every generated package in this process happens concurrently
+// (no sequential warm-up), which is when lazily initialised shared state would be built by two goroutines at once.
+// References are computed afterwards. Meant for the -race build; also compares outputs.
+func TestC13RaceCold(t *testing.T) {
+	seed := envInt("VERIF_SEED", 1)*100 + envInt("VERIF_SHARDIDX", 0)
+	runtime.GOMAXPROCS(16)
+	var specs []InstSpec
+	fixtures := fixturesFromEnv(c13Fixtures)
+	for i := 0; i < 32; i++ {
+		cfg := wlCfg{fixtures: []string{fixtures[i%len(fixtures)]}, maxRecs: 12, gen: vt.DefaultGen, noPatterns: true}
+		w := rapid.Custom(func(t *rapid.T) *Workload { return genWorkload(t, cfg) }).Example(seed*977 + i)
+		specs = append(specs, InstSpec{W: w})
+	}
+	type res struct {
+		file []byte
+		rows []byte
+	}
+	got := make([]res, len(specs))
+	var wg sync.WaitGroup
+	start := make(chan struct{})
+	for i := range specs {
+		wg.Add(1)
+		go func(i int) {
+			defer wg.Done()
+			<-start
+			got[i].file = runSolo(specs[i], nil)
+			// strip the "|err" suffix to get the file bytes for reading back
+			f := got[i].file
+			if k := bytes.LastIndexByte(f, '|'); k >= 0 {
+				f = f[:k]
+			}
+			got[i].rows = runSolo(InstSpec{Reader: true, W: specs[i].W}, f)
+		}(i)
+	}
+	close(start)
+	wg.Wait()
+	for i, s := range specs {
+		record("C13", fmt.Sprintf("cold/%d/%d", seed, i), true, []string{"engine=goroutines-cold-start"}, func() interface{} {
+			return map[string]interface{}{"engine": "goroutines, first use of the package concurrent", "instance": instDesc(s)}
+		})
+		wantFile := runSolo(s, nil)
+		f := wantFile
+		if k := bytes.LastIndexByte(f, '|'); k >= 0 {
+			f = f[:k]
+		}
+		wantRows := runSolo(InstSpec{Reader: true, W: s.W}, f)
+		if !bytes.Equal(got[i].file, wantFile) || !bytes.Equal(got[i].rows, wantRows) {
+			o := viol("C13/interference/engine=goroutines-cold", "instance %d (%s): output of the concurrent cold start differs from a later sequential run", i, instDesc(s))
+			if isKnown("C13", o.Key) {
+				continue
+			}
+			saveFail("C13", &SchedCase{Engine: "goroutines", Insts: specs}, o)
+			t.Fatalf("C13 violated: %s", o.Error())
+		}
+	}
+}
